@@ -16,6 +16,7 @@ Rec == TLog[t]
 Ev  == TLog[t].events[l]
 TraceBase == TLog[1].w
 TraceVarChoices == {{}}
+TracePointLists == {}
 
 VarOf(nm) == B.vars[VarByName(B, nm)]
 ObsVarS(vs, nm) == vs[CHOOSE k \in 1..Len(vs) : vs[k].name = nm]
@@ -38,7 +39,12 @@ VarAgrees(v, var, o) ==
 Explicit == IsUGrid(B) \/ IsArakawa(B) \/ HasField(B.geom, "xb")
 
 Names == {"Completed", "SameConvention", "CellsAreOriginalCells", "SelectedKeepPolygon", "ValuesAreOriginal", "VariablesPresent",
-          "BindingState", "AnswerMatches", "QueryAnswer", "CellValues"}
+          "BindingState", "AnswerMatches", "QueryAnswer", "CellValues", "ExtractAnswer"}
+
+\* Extract: the requests that survive the policy (1-based positions in the request list), and the cell each row shows
+ExtRows(vq, e) == LET all == [k \in 1..Len(e.cells) |-> k]
+                  IN IF e.policy = "drop" THEN SelectSeq(all, LAMBDA k : k \notin Misses(vq, e.cells)) ELSE all
+ExtRefused(vq, e) == e.policy = "error" /\ Misses(vq, e.cells) # {}
 
 \* evaluated in the post-state (primed variables) of the specification action
 Holds(name, e) ==
@@ -46,7 +52,7 @@ Holds(name, e) ==
       v == objs'[s]
       ob == e.obs.view
   IN
-  CASE name = "Completed" -> e.obs.ok
+  CASE name = "Completed" -> e.obs.ok \/ (e.a = "Extract" /\ ExtRefused(objs[e.obj], e))
     [] name = "SameConvention" -> e.obs.ok => ob.conv = B.convclass
     [] name = "CellsAreOriginalCells" ->
          (e.obs.ok /\ "ok" \in DOMAIN ob.polys) =>
@@ -82,6 +88,21 @@ Holds(name, e) ==
                       oshape == [m \in 1..Len(OtherPos(var)) |-> var.shape[OtherPos(var)[m]]]
                   IN /\ o.shape = oshape /\ Len(o.data) = ProdSeq(oshape)
                      /\ \A q \in 1..Len(o.data) : o.data[q] = ValueOf(vq, var, UnravelRM(oshape, q - 1), e.pos)
+    [] name = "ExtractAnswer" ->
+         \* 'error' names exactly the requests that miss; 'drop' keeps exactly the hits, labelled with their positions in
+         \* the request list; 'fill' keeps every row, the misses holding missing data; the rows show the values this view
+         \* shows for those cells
+         (e.a = "Extract") =>
+            LET vq == objs[e.obj]  rows == ExtRows(vq, e)  miss == Misses(vq, e.cells)
+                shown == [r \in 1..Len(rows) |-> IF rows[r] \in miss THEN -1 ELSE e.cells[rows[r]]]
+            IN IF ExtRefused(vq, e)
+               THEN /\ ~e.obs.ok /\ e.obs.error = "NonIntersectingPoints"
+                    /\ Len(e.obs.indices) = Cardinality(miss) /\ ToSet(e.obs.indices) = {k - 1 : k \in miss}
+               ELSE e.obs.ok =>
+                    /\ e.obs.labels = [r \in 1..Len(rows) |-> rows[r] - 1]
+                    /\ \A nm \in vq.vars :
+                          /\ HasVarS(e.obs.rows, nm)
+                          /\ SelectManyOKOff(B, VarOf(nm), shown, "point", ObsVarS(e.obs.rows, nm), vq.off)
     [] name = "AnswerMatches" ->
          /\ (e.a = "Access" => e.obs.conv = out'.conv)
          /\ (e.a \in {"Copy", "ApplyMask", "SelectVariables", "Open"} => e.obs.subject = out'.new)
@@ -97,6 +118,10 @@ SeenOf(e) == {e.a, B.conv}
   \cup (IF e.a = "Query" /\ PosOfCell(objs[e.obj], e.cell) >= 0 /\ objs[e.obj].cells # BaseViewOf(B).cells THEN {"query-on-derived"} ELSE {})
   \cup (IF e.a = "SelectCell" /\ objs[e.obj].cells # BaseViewOf(B).cells THEN {"cell-of-derived"} ELSE {})
   \cup (IF e.a = "ApplyMask" /\ e.mask <= Len(masks) /\ e.obj # 1 THEN {"mask-on-other-dataset"} ELSE {})
+  \cup (IF e.a = "Extract" THEN {"extract-" \o e.policy} ELSE {})
+  \cup (IF e.a = "Extract" /\ Misses(objs[e.obj], e.cells) # {} THEN {"extract-with-miss"} ELSE {})
+  \cup (IF e.a = "Extract" /\ objs[e.obj].cells # BaseViewOf(B).cells THEN {"extract-on-derived"} ELSE {})
+  \cup (IF e.a = "Extract" /\ objs[e.obj].off # 0 THEN {"extract-after-mutation"} ELSE {})
 
 Done == t > Len(TLog)
 InitState(b) == /\ B = b /\ objs = <<BaseViewOf(b)>> /\ masks = <<>> /\ files = <<>> /\ convs = <<>>
@@ -116,6 +141,7 @@ Act(e) ==
     [] e.a = "Open" -> Open(e.file)
     [] e.a = "Query" -> Query(e.obj, e.cell)
     [] e.a = "SelectCell" -> SelectCell(e.obj, e.pos)
+    [] e.a = "Extract" -> Extract(e.obj, e.cells, e.policy)
 
 Step ==
   /\ ~Done /\ UNCHANGED B
